@@ -78,6 +78,12 @@ static mpq_t keep_mpq_type;   // rt/gmp_model.c also models mpq functions and ne
 
 union ISlot { Interpret i; ISlot() {} ~ISlot() {} };
 
+// partition bits of every CURRENT assertion whose term is the term of slot a (the same formula may be asserted more than once)
+static uint64_t same_term(int const * tid, bool const * live, int na, int a) {
+    uint64_t m = 0;
+    for (int j = 0; j < NA; j++) if (j < na && live[j] && tid[j] == tid[a]) m |= (uint64_t)1 << j;
+    return m;
+}
 template <int K> static void path_masks() {
     mpq_init(keep_mpq_type);
     static ISlot raw; Interpret * I = &raw.i;
@@ -95,11 +101,18 @@ template <int K> static void path_masks() {
     // termNames of the raw solver object: no named terms (names are resolved by the parseTerm stub)
     new (&fake_solver.m.termNames.scopedNamesAndTerms) TermNames::ScopedNamesAndTerms();
 #ifdef DUP_TERMS
-    // incremental use. History: n1 assertions with pairwise distinct terms at nondecreasing assertion levels <= g_level,
-    // then the REAL Interpret::pop(k) (MainSolver::pop / getAssertionLevel are the ghost level counter), then na - n1
-    // further assertions at the current level, each of which may repeat the term of an assertion that has been popped
-    // (appended to assertions / assertionLevels as the t_assert case of Interpret::interp does after insertFormula)
+    // incremental use. History: n1 assertions at nondecreasing assertion levels <= g_level, then the REAL Interpret::pop(k)
+    // (MainSolver::pop / getAssertionLevel are the ghost level counter), then na - n1 further assertions at the current
+    // level. Any assertion may repeat the term of an earlier one, popped or still current (tid[i] = first slot with that term).
+    // New entries are appended to assertions / assertionLevels as the t_assert case of Interpret::interp does after insertFormula.
     {
+        for (int i = 0; i < NA; i++) {
+            tid[i] = nondet_u8(); VASSUME(tid[i] <= i && tid[tid[i]] == tid[i]);
+#ifdef KF_C08_ASSERTION_INDEX_FIRST_MATCH
+            VASSUME(tid[i] == i);      // (repaired in /repo) get_assertion_index returned the first, possibly popped, assertion with the same term
+#endif
+            I->assertions.data[i] = PTRef{10u + (uint32_t)tid[i]};
+        }
         int n1 = nondet_u8(); VASSUME(n1 <= na);
         g_level = nondet_u8(); VASSUME(g_level <= 2);
         std::size_t lvl[NA];
@@ -115,16 +128,11 @@ template <int K> static void path_masks() {
         VASSERT(g_level == (k <= before ? before - k : before), "pop(k) pops k levels or nothing");
         for (int i = 0; i < NA; i++) live[i] = i >= n1 || lvl[i] <= (std::size_t)g_level;
         for (int i = 0; i < NA; i++) if (i >= n1 && i < na) {
-            tid[i] = nondet_u8();
-            VASSUME(tid[i] <= i && tid[tid[i]] == tid[i]);
-            for (int j = 0; j < NA; j++) if (j < i) VASSUME(tid[j] != tid[i] || !live[j]);
-#ifdef KF_C08_ASSERTION_INDEX_FIRST_MATCH
-            VASSUME(tid[i] == i);      // (repaired in /repo) get_assertion_index returned the first, possibly popped, assertion with the same term
-#endif
             I->assertions.push(PTRef{10u + (uint32_t)tid[i]}); I->assertionLevels.push((std::size_t)g_level);
         }
         if (k >= 1 && k <= before && n1 >= 1 && !live[n1 - 1]) VWITNESS("assertion-popped");
         if (na >= 2 && tid[na - 1] != na - 1) VWITNESS("term-re-asserted");
+        if (na >= 2 && tid[na - 1] != na - 1 && live[tid[na - 1]]) VWITNESS("term-asserted-twice-both-current");
     }
 #endif
     cfg_inter = nondet_bool(); status_val = nondet_u8() % 3;
@@ -137,7 +145,7 @@ template <int K> static void path_masks() {
         group_kind[g] = kind;
         if (kind == 0) {
             int a = nondet_u8(); VASSUME(a < na && live[a]);
-            group_term[g] = PTRef{10u + (uint32_t)tid[a]}; acc |= (uint64_t)1 << a;
+            group_term[g] = PTRef{10u + (uint32_t)tid[a]}; acc |= same_term(tid, live, na, a);
         } else if (kind == 1 || kind == 2) {
             int m = nondet_u8(); VASSUME(m >= 2 && m <= MAXAND);
             Pterm * pt = static_cast<Pterm *>(malloc(sizeof(Pterm) + 4 * MAXAND));
@@ -147,7 +155,7 @@ template <int K> static void path_masks() {
                 int a = nondet_u8(); VASSUME(a < na && live[a]);
                 bool foreign = kind == 2 && nondet_bool();
                 pt->args[j] = foreign ? PTRef{50} : PTRef{10u + (uint32_t)tid[a]};
-                if (j < m) { if (foreign) { if (g < K - 1) all_valid = false; } else acc |= (uint64_t)1 << a; }
+                if (j < m) { if (foreign) { if (g < K - 1) all_valid = false; } else acc |= same_term(tid, live, na, a); }
             }
             group_pterm[g] = pt; group_term[g] = PTRef{100u + (uint32_t)g};
         } else {
@@ -155,8 +163,12 @@ template <int K> static void path_masks() {
         }
         expect[g] = acc;
     }
-    static std::vector<ASTNode *> children;
-    for (int g = 0; g < K; g++) children.push_back(&ast.n[g + 1]);
+    // the argument list: K child nodes in fixed storage (no vector growth in the harness itself)
+    static ASTNode * child_arr[MAXK];
+    static union CVSlot { std::vector<ASTNode *> v; CVSlot() {} ~CVSlot() {} } cvs;
+    std::vector<ASTNode *> & children = cvs.v;
+    for (int g = 0; g < K; g++) child_arr[g] = &ast.n[g + 1];
+    children._M_impl._M_start = child_arr; children._M_impl._M_finish = child_arr + K; children._M_impl._M_end_of_storage = child_arr + K;
     ast.n[0].children = &children;
 
     bool threw = false;
@@ -175,7 +187,7 @@ template <int K> static void path_masks() {
         VASSERT(ncalls == K - 1, "k groups are answered by k-1 single interpolation calls");
         for (int i = 0; i < K - 1; i++) {
             VASSERT(rec_this[i] == the_ctx, "every mask is answered on the same interpolation context");
-            VASSERT(rec_small[i] && rec_mask[i] == expect[i], "mask i is the union of the partition bits of the current assertions named in groups 0..i");
+            VASSERT(rec_small[i] && rec_mask[i] == expect[i], "mask i is the union of the partition bits of all current assertions whose term is named in groups 0..i");
             if (i > 0) VASSERT((rec_mask[i - 1] & ~rec_mask[i]) == 0, "masks are nested");
         }
         VASSERT(nprinted == K - 1, "k-1 interpolants are printed");
